@@ -366,6 +366,8 @@ class WFSA:
             new.add_I(i, self.start[i] * V[i])
             new.add_F(i, V[i] ** (-1) * self.stop[i])
             for a, j, w in self.arcs(i):
+                if V[j] == self.R.zero:
+                    continue  # j is dead: no zero-weight arc into a dropped state
                 new.add_arc(i, a, j, V[i] ** (-1) * w * V[j])
         return new
 
